@@ -92,6 +92,10 @@ def build_app(variant=0):
     if variant == 1:
         app.keep_blank_values = 1
         app.auto_form = True
+    if variant in (2, 4):
+        # ... and their own lists of media types, the documented way: by appending to the list they are given
+        app.json_mime_types.append("application/vnd.verif+json")
+        app.form_mime_types.append("application/x-verif-form")
     if variant in (1, 4):
         # applications configure their own route filters: a redefined built-in and a filter of their own
         app.set_filter("int", r"\d\d", int)
@@ -330,6 +334,8 @@ KINDS = {
     "405": lambda: env_of("DELETE", "/post"),
     "form": lambda: env_of("POST", "/post", body=b"k=v&k=&z=1", ctype="application/x-www-form-urlencoded"),
     "json": lambda: env_of("POST", "/post", body=b'{"a": [1, 2]}', ctype="application/json"),
+    "json-vnd": lambda: env_of("POST", "/post", body=b'{"a": [3]}', ctype="application/vnd.verif+json"),
+    "form-vnd": lambda: env_of("POST", "/post", body=b"k=v", ctype="application/x-verif-form"),
     "badjson": lambda: env_of("POST", "/post", body=b'{"a": ', ctype="application/json"),
     "multipart": lambda: env_of("POST", "/post", body=b'--B\r\nContent-Disposition: form-data; name="f"\r\n\r\nv\r\n--B--\r\n',
                                 ctype="multipart/form-data; boundary=B"),
